@@ -15,14 +15,19 @@ require (
 	verif/sim v0.0.0
 )
 
-replace github.com/goghcrow/go-co => /repo
+replace github.com/goghcrow/go-co => ${VERIF_REPO:-/repo}
 
 replace verif/sim => /verif/sim
 EOM
 cp /verif/sim/go.sum $D/
 cp "$1" $D/src/p/x.go
-( cd /verif/sim && go build -tags verif -o ../bin/codrv ./cmd/codrv ) || exit 2
-( cd $D && CODRV_STACK=${STACK:-} /verif/bin/codrv stages src opt ) || { echo "COMPILE FAILED"; exit 1; }
+MODFLAG=""
+if [ -n "${VERIF_REPO:-}" ] && [ "$VERIF_REPO" != "/repo" ]; then
+  sed "s|=> /repo\$|=> $VERIF_REPO|" /verif/sim/go.mod > /verif/sim/go.alt.mod; cp /verif/sim/go.sum /verif/sim/go.alt.sum
+  MODFLAG="-modfile=go.alt.mod"
+fi
+( cd /verif/sim && go build $MODFLAG -tags verif -o $D/codrv ./cmd/codrv ) || exit 2
+( cd $D && CODRV_STACK=${STACK:-} $D/codrv stages src opt ) || { echo "COMPILE FAILED"; exit 1; }
 [ -n "${SHOWTMP:-}" ] && cat $D/opt_tmp/p/x.go
 cat $D/opt/p/x.go
 cat > $D/main.go <<EOM
